@@ -5,7 +5,7 @@ CONSTANTS
  Gg = 2
  Vars = {"n"}
  Ns = {2, 3}
- MsgVecs <- MV7s
+ MsgVecs <- MV7
  CCoins <- AllZq
  SCoins <- AllZq
  Tamper = FALSE
